@@ -38,7 +38,7 @@ def mutate_ast(rng, prog):
     elif kind == "name":
         its = items_of(st)
         refs = [it for it in (its or []) if it[0] != "nuc"]
-        if refs: rng.choice(refs)[1] = rng.choice(["nosuch", "a", "x", st[1] if st[0] == "seq" else "y"])
+        if refs: rng.choice(refs)[1] = rng.choice(["nosuch", "a", "x", st[1] if st[0] == "seq" else "y", "_Anon0", "_Anon1"])
         elif st[0] == "struct": st[3][rng.randrange(len(st[3]))] = rng.choice(["nosuch", st[2]])
         elif st[0] == "kin" and st[3]: st[3][0] = "nosuch"
     elif kind == "defname":
@@ -47,6 +47,7 @@ def mutate_ast(rng, prog):
         pos = {"seq": 1, "strand": 2, "struct": 2}
         if st[0] in pos:
             others = [o[pos[o[0]]] for k, o in enumerate(body) if k != i and o[0] == st[0]]
+            if st[0] == "seq" and rng.random() < 0.25: others = ["_Anon%d" % rng.choice([0, 1, 3])]    # reserved names must be rejected
             if others: st[pos[st[0]]] = rng.choice(others)
     elif kind == "star":
         its = items_of(st)
